@@ -157,7 +157,7 @@ func runWorker(prop, tier string, seed int64, w int) (out workerOut) {
 	for vi, variant := range pl.variants {
 		s := seed*1000003 + int64(w)*7919 + int64(vi)*104729
 		res := run.Exec(run.Config{Seed: s, Steps: pl.steps, Profile: gen.ProfileFor(prop), Genesis: variant, Monitors: mons, Rep: rep,
-			Raw: prop == "C03", Bootstrap: true, SeedTag: fmt.Sprintf("s%d-w%d-%s", seed, w, variant)})
+			Raw: prop == "C03", Bootstrap: true, Whale: prop == "C05" || prop == "C07" || prop == "C01" || prop == "C11", SeedTag: fmt.Sprintf("s%d-w%d-%s", seed, w, variant)})
 		if res.Err != nil {
 			runErrs = append(runErrs, res.Err.Error())
 		}
